@@ -117,7 +117,8 @@ Remove(cfg, s, k) ==
              res |-> [ok |-> TRUE, busy |-> s.ob[b]]]
   ELSE LET gone == SelectSeq(s.reg, LAMBDA x : Matches(cfg, x, k)) IN
        [st |-> [s EXCEPT !.reg = SelectSeq(@, LAMBDA x : ~Matches(cfg, x, k))],
-        res |-> [ok |-> Len(gone) > 0, removed |-> gone]]
+        \* which objects were removed (as a set: the order of the returned slice is not part of the property)
+        res |-> [ok |-> Len(gone) > 0, removed |-> [o \in ObjIds(cfg) |-> IsReg(s, o) /\ Matches(cfg, o, k)]]]
 
 Apply(cfg, s, op) ==
   CASE op.op = "try" -> Try(cfg, s, op.key)
